@@ -214,6 +214,29 @@ pub fn gen_config(rng: &mut Rng, prof: &Profile, overhead: usize) -> (Config, Ge
     } else {
         prof.min_steps + rng.usize_below(prof.max_steps - prof.min_steps + 1)
     };
+    // churn regime: medium-sized caches at (nearly) constant length with colliding hashers, long
+    // histories: this is where tombstones build up and "growth" can shrink the table
+    let churn = !large && rng.chance(1, 7);
+    let (universe, max_size, mode, steps, kheaps, vheaps) = if churn {
+        let k = 12 + rng.usize_below(60);
+        let c = rng.below(30) as usize;
+        let mode = match rng.below(6) {
+            0..=2 => HashMode::Const,
+            3 => HashMode::SameSlot,
+            4 => HashMode::Mod(2),
+            _ => mode,
+        };
+        for (i, w) in weights.iter_mut().enumerate() {
+            if matches!(i, CAT_CLEAR | CAT_DRAIN | CAT_ITER_OWNING | CAT_DROP | CAT_SET_MAX | CAT_RETAIN) {
+                *w = (*w).min(1);
+            }
+        }
+        weights[CAT_INSERT] = weights[CAT_INSERT].max(30) * 2;
+        weights[CAT_REMOVE] = weights[CAT_REMOVE].max(5) * 2;
+        ((k as u32) * 2, k * (overhead + c) + if rng.bool() { 0 } else { usize::MAX / 2 }, mode, 150 + rng.usize_below(350), vec![0usize], vec![c])
+    } else {
+        (universe, max_size, mode, steps, kheaps, vheaps)
+    };
     let cfg = Config { ctor, mode, salt, max_size, universe, prefill: if large { prof.large_prefill } else { 0 }, prefill_vh: vheaps[0] };
     let gs = GenState { kheaps, vheaps, weights, recent_gone: Vec::new(), two_caches, refuse_pct: prof.refuse_pct, natural_oom: prof.natural_oom };
     (cfg, gs, steps)
@@ -334,7 +357,7 @@ pub fn gen_op(rng: &mut Rng, gs: &mut GenState, cfg: &Config, pres: &[Option<Obs
         CAT_REMOVE_LRU => OpKind::RemoveLru,
         CAT_REMOVE_MRU => OpKind::RemoveMru,
         CAT_MUTATE => {
-            let k = pick_key(rng, pre, uni, gs);
+            let k = if n > 0 && rng.chance(4, 5) { pre.entries[match rng.below(4) { 0 => 0, 1 => n - 1, _ => rng.usize_below(n) }].id } else { pick_key(rng, pre, uni, gs) };
             let vh = match pre.find(k) {
                 None => *rng.pick(&gs.vheaps),
                 Some(i) => {
